@@ -19,8 +19,8 @@ MANIFEST = dict(
          'interpreter - and then all the others - runs every statement to completion and leaves every module completely '
          'loaded (proved through the generator section by section: classes, aliases, reflection tables per omitted caller, '
          'subtype maps, void-tag instances, defaults, routes), with acyclic_of_acyclicB tying the driver\'s executable test to '
-         'the hypothesis; decided witnesses show that acyclicity, the alias order at any depth and the import of the namespace of a '
-         'union-typed route attribute are needed (the first two are meanwhile guaranteed by the compiler), decided regression '
+         'the hypothesis; decided witnesses show that acyclicity, the alias order at any depth and the absence of union-tag route '
+         'attributes are needed (the first two are meanwhile guaranteed by the compiler, the third is the listed finding D37), decided regression '
          'examples cover the repaired name spellings (aliases and subtype roots whose names fmt_class changes). Tied to the code by a translator (section '
          'order of _generate_base_namespace_module, the word-splitting regexes, the reserved-word table, the two raw-name '
          'sites, pinned by rfl / decide) and by parsing every generated module with Python\'s ast and comparing its reduced '
